@@ -1,0 +1,64 @@
+//go:build verif
+// +build verif
+
+package token
+
+// Hooks for /verif property C11 (compiled only with -tags verif): read-only
+// copies of the tokenizer's limits and tables, from which the Lean tables of
+// the tokenizer / parser models are regenerated on every run.
+
+const (
+	VerifMaxID        = uint32(maxID)
+	VerifMaxLine      = uint32(maxLine)
+	VerifMaxTokenSize = uint32(maxTokenSize)
+	VerifNBuiltInIDs  = uint32(nBuiltInIDs)
+)
+
+// VerifSuffixLexer is an exported copy of suffixLexer.
+type VerifSuffixLexer struct {
+	Suffix string
+	ID     ID
+}
+
+// VerifRanges returns the inclusive [min, max] ID ranges that the IsXxx
+// predicates of list.go test, keyed by the Xxx of minXxx / maxXxx.
+func VerifRanges() map[string][2]uint32 {
+	return map[string][2]uint32{
+		"Assign":            {uint32(minAssign), uint32(maxAssign)},
+		"BuiltInIdent":      {uint32(minBuiltInIdent), uint32(maxBuiltInIdent)},
+		"BuiltInLiteral":    {uint32(minBuiltInLiteral), uint32(maxBuiltInLiteral)},
+		"BuiltInNumLiteral": {uint32(minBuiltInNumLiteral), uint32(maxBuiltInNumLiteral)},
+		"CannotAssignTo":    {uint32(minCannotAssignTo), uint32(maxCannotAssignTo)},
+		"Close":             {uint32(minClose), uint32(maxClose)},
+		"Keyword":           {uint32(minKeyword), uint32(maxKeyword)},
+		"NumType":           {uint32(minNumType), uint32(maxNumType)},
+		"Op":                {uint32(minOp), uint32(maxOp)},
+		"Open":              {uint32(minOpen), uint32(maxOpen)},
+	}
+}
+
+// VerifBuiltInsByID returns a copy of builtInsByID (index = ID).
+func VerifBuiltInsByID() []string { return append([]string(nil), builtInsByID[:]...) }
+
+// VerifSquiggles returns a copy of squiggles (index = byte).
+func VerifSquiggles() []ID { return append([]ID(nil), squiggles[:]...) }
+
+// VerifLexers returns a copy of lexers (index = first byte; table order kept).
+func VerifLexers() [][]VerifSuffixLexer {
+	out := make([][]VerifSuffixLexer, len(lexers))
+	for c, l := range lexers {
+		for _, x := range l {
+			out[c] = append(out[c], VerifSuffixLexer{Suffix: x.suffix, ID: x.id})
+		}
+	}
+	return out
+}
+
+// VerifBackslashes returns a copy of backslashes (index = byte).
+func VerifBackslashes() []byte { return append([]byte(nil), backslashes[:]...) }
+
+// VerifUnaryForms etc. return copies of the operator form tables as they are
+// after init's addXForms (index = ID).
+func VerifUnaryForms() []ID       { return append([]ID(nil), unaryForms[:]...) }
+func VerifBinaryForms() []ID      { return append([]ID(nil), binaryForms[:]...) }
+func VerifAssociativeForms() []ID { return append([]ID(nil), associativeForms[:]...) }
